@@ -626,6 +626,13 @@ ResetToStart ==
     /\ UNCHANGED <<cfg, base, ma, frames, nextId, fails, dropped>>
     /\ Step("reset_to_start", [none |-> TRUE], Exp("ok", 0, NoX))
 
+\* ---- Bump::into_raw / Bump::from_raw (only outside every frame): ownership round trip, nothing changes ------------------
+RawRoundtrip ==
+    /\ Active /\ Free /\ Depth = 0
+    /\ last' = last
+    /\ UNCHANGED <<cfg, base, chunks, cur, ma, frames, blocks, cps, nextId, order, parts, fails, dropped>>
+    /\ Step("raw_roundtrip", [none |-> TRUE], Exp("ok", 0, NoX))
+
 \* ---- drop ---------------------------------------------------------------------------------------
 DropArena ==
     /\ Active /\ Free /\ Depth = 0
